@@ -12,7 +12,8 @@ REDRAWS THAT URWID ABORTS OR SHORT-CIRCUITS: a real SIGWINCH pending (urwid does
 get_input() has reported the resize), the base class' draw_screen raising at once / inside the
 canvas' content() / at one of its writes, and draw_screen() of a canvas object drawn earlier
 (the cached identical canvas) after such an aborted redraw;
-terminal identity kitty / konsole / other; and EVERY WAY THE SCREEN IS STARTED: with the
+terminal identity (identified as kitty 0.20.0 .. 0.32.2 / Konsole / unidentified with forced support), REPAINTS OF
+UNCHANGED IMAGE VIEWS (only the text beside an image changes), placements COUNTED; and EVERY WAY THE SCREEN IS STARTED: with the
 alternate buffer or without it (urwid's inline mode), repeated stop()/start() cycles changing
 the mode, a new screen object for a new cycle, on a terminal that already holds image
 placements (printed by an earlier command / by the application before start() or between two
@@ -37,7 +38,7 @@ import core
 LEVEL = "proof"
 EXTRA_TARGETS = ["model/ScreenTie.vo"]
 
-MODEL_REASON = {2: "layout extracted with urwid's shard functions is not well-formed / does not match the shards",
+MODEL_REASON = {11: "tc_konsole differs from the identity's (malformed case)", 2: "layout extracted with urwid's shard functions is not well-formed / does not match the shards",
                 3: "walk ran out of fuel", 4: "delete commands differ from the model's",
                 5: "_ti_image_cviews differs from the model's", 6: "canvas disguise state differs from the model's",
                 7: "widget disguise states differ from the model's", 8: "z-index allocator differs from the model's single allocator (counter / free set / live widgets' indexes / a class of "
@@ -55,6 +56,9 @@ SPEC_REASON = {1: "an exception escaped a legitimate redraw", 2: "redraw output 
                   "stop: on the buffer the screen ran on)",
                8: "a placement TRANSMITTED for the canvas carries a z-index that is not the z-index its widget holds (the screen deletes "
                   "by the widget's), or lies in no tracked view, or two live kitty widgets place their images with the same z-index",
+               10: "STACKED: the terminal holds an image placement MORE TIMES than the canvas just drawn has it (placements are counted: "
+                   "a row re-sent while the image's view is unchanged put one more placement under / over the equal one already there, "
+                   "and nothing deleted it - neither a delete of the screen nor the image line's own delete-at-cursor of blend=False)",
                9: "after a redraw that urwid aborted (resize pending / the base draw raised) or short-circuited, the terminal shows a "
                   "placement that the canvas now tracked does not have: the tracking is out of sync with the terminal"}
 
@@ -69,6 +73,44 @@ KINDS = {"kitty": ["kitty", "kitty", "block"], "konsole": ["kitty", "iterm2", "i
 
 
 Z_FIELDS = [0, 1, -1, 2, 5, -7, 2**31 - 1, -(2**31 - 1)]
+
+# terminal identities for which the library claims support of the kitty protocol: identified as kitty (the
+# versions around the library's own version tests: >= 0.20.0 supported, <= 0.25.0 / > 0.25.0 animation work-around),
+# Konsole, and an UNIDENTIFIED terminal implementing the protocol with KittyImage.forced_support = True
+IDENTS = {"kitty": [["kitty", "0.20.0"], ["kitty", "0.25.0"], ["kitty", "0.25.1"], ["kitty", "0.26.0"], ["kitty", "0.32.2"]],
+          "konsole": [["konsole", "22.12.3"], ["konsole", "22.04.0"]],
+          "other": [["forced", "wezterm"], ["forced", "ghostty"], ["forced", ""]]}
+DEFAULT_IDENT = {"kitty": ["kitty", "0.32.2"], "konsole": ["konsole", "22.12.3"], "other": ["forced", "wezterm"]}
+
+
+def ident_of(case):
+    return case.get("ident") or DEFAULT_IDENT[case["term"]]
+
+
+def ident_term(case):
+    idn = ident_of(case)
+    if idn[0] == "kitty":
+        a, b_, c = (int(x) for x in idn[1].split("."))
+        return f"(IdKitty {a} {b_} {c})"
+    return "IdKonsole" if idn[0] == "konsole" else "IdForced"
+
+
+def describe_ident(case):
+    idn = ident_of(case)
+    if idn[0] == "forced":
+        return f"unidentified terminal {idn[1]!r} with KittyImage.forced_support=True"
+    return f"identified as {idn[0]} {idn[1]}"
+
+
+def ticker(n, rows):
+    """the text of a status / log pane: every row changes at every tick"""
+    return "\n".join(f"t{n}l{i}" for i in range(rows))
+
+
+def beside(L, n, rows, width=5):
+    """`L` with a text pane on its left on the same rows: when only the text changes urwid re-sends the rows
+    although no image view changed"""
+    return ["cols", [[["given", width], ["filler", ["text", ticker(n, rows)], "top"]], [["weight", 1], L]]]
 
 
 def gen_fmt(rng: random.Random, kind: str, plain=0.45):
@@ -309,6 +351,7 @@ def gen_case(rng: random.Random, idx: int, quick: bool):
     if idx % 11 == 10:
         z_start = rng.choice([2**31 - 1, -(2**31 - 1), 2**31 - 2, 2**31])
     gen = Gen(rng, names, (cols, rows))
+    ident = IDENTS[term][(idx // 3) % len(IDENTS[term])]
     steps = []
     if ksup and rng.random() < 0.5:
         steps.append(gen_pre(rng, term, cols, rows))
@@ -318,15 +361,24 @@ def gen_case(rng: random.Random, idx: int, quick: bool):
     steps.append({"op": "draw", "layout": layout})
     for _ in range(rng.randint(3, 7 if quick else 10)):
         c = rng.random()
-        if c < 0.45:
+        if c < 0.42:
             layout = mutate(rng, gen, layout)
             steps.append({"op": "draw", "layout": layout})
-        elif c < 0.58:
+        elif c < 0.54:
             layout = gen.box(rng.randint(0, 3), cols, rows)
             steps.append({"op": "draw", "layout": layout})
-        elif c < 0.60:
+        elif c < 0.56:
             steps.append({"op": "redraw"})
-        elif c < 0.66:
+        elif c < 0.63 and cols >= 20:
+            # REPAINTS OF UNCHANGED IMAGE VIEWS: a text pane beside the current layout, on the same rows; then
+            # only the text changes 1-3 times (a clock / log / status pane): urwid re-sends the rows, no image
+            # view vanishes, so the screen sends no delete
+            inner = layout[1][1][1] if (layout[0] == "cols" and len(layout[1]) == 2 and layout[1][0][1][0] == "filler"
+                                        and layout[1][0][0] == ["given", 5]) else layout
+            for n in range(rng.randint(2, 4)):
+                layout = beside(inner, n + len(steps), rows)
+                steps.append({"op": "draw", "layout": layout})
+        elif c < 0.69:
             # the public clear_images(): all images or some of the widgets (distinct), at once or
             # queued, then a redraw of the unchanged layout (a new canvas object whose image rows
             # are byte-identical but for the disguise) or of a changed one.  At most ONE call
@@ -340,10 +392,10 @@ def gen_case(rng: random.Random, idx: int, quick: bool):
                 # redraw: urwid returns early); a one-item Pile paints the same screen with a new canvas object
                 layout = ["pile", [[["weight", 1], layout]]]
             steps.append({"op": "draw", "layout": layout})
-        elif c < 0.69:
+        elif c < 0.72:
             steps.append({"op": "clear"})
             steps.append({"op": rng.choice(["redraw", "draw"]), "layout": layout})
-        elif c < 0.73:
+        elif c < 0.76:
             # another session: possibly after other output on the terminal, possibly as a new screen
             # object, started with or without the alternate buffer
             steps.append({"op": "stop"})
@@ -358,11 +410,11 @@ def gen_case(rng: random.Random, idx: int, quick: bool):
             again = not fresh and steps[-1]["alt"] == mode and rng.random() < 0.3
             mode = steps[-1]["alt"]
             steps.append({"op": "redraw"} if again else {"op": "draw", "layout": layout})
-        elif c < 0.80:
+        elif c < 0.82:
             nme = rng.choice(names)
             steps.append({"op": "new", "slot": nme, "spec": gen_spec(rng, rng.choice(KINDS[term]) if ksup else "block", True)})
             steps.append({"op": "draw", "layout": layout})
-        elif c < 0.85:
+        elif c < 0.86:
             # drop a widget that the next layout no longer uses
             layout2 = gen.box(rng.randint(0, 2), cols, rows)
             used = json.dumps(layout2)
@@ -428,7 +480,8 @@ def gen_case(rng: random.Random, idx: int, quick: bool):
                 layout = mutate(rng, gen, layout)
                 steps.append({"op": "draw", "layout": layout})
     steps.append({"op": "stop"})
-    case = {"term": term, "ksup": ksup, "size": [cols, rows], "z_start": z_start, "slots": slots, "steps": steps}
+    case = {"term": term, "ksup": ksup, "size": [cols, rows], "z_start": z_start, "slots": slots, "steps": steps,
+            "ident": ident}
     assert in_domain(case), case
     return case
 
@@ -608,6 +661,25 @@ def corpus():
     # kitty protocol unsupported: nothing is written
     cases.append({"term": "other", "ksup": False, "size": [16, 6], "z_start": None, "slots": {"a": B},
                   "steps": [S, d(["img", "a"]), d(["fill", "."]), {"op": "clear"}, {"op": "redraw"}, E]})
+    # EVERY TERMINAL IDENTITY x repaints of unchanged image views: a text pane beside the image (same rows) ticks
+    # three times - urwid re-sends the rows, no view vanishes; two widgets side by side with the pane; the pane
+    # above the image (other rows: nothing re-sent); then the image moves (deleted by z-index) and ticks again
+    for term in ("kitty", "konsole", "other"):
+        for ident in IDENTS[term]:
+            base = {"term": term, "ksup": True, "size": [24, 8], "z_start": None, "ident": ident}
+            one = ["img", "a"]
+            two = ["cols", [[["weight", 1], ["img", "a"]], [["weight", 1], ["img", "b"]]]]
+            cases.append(dict(base, slots={"a": K}, steps=[S] + [d(beside(one, n, 8)) for n in range(4)] + [E]))
+            if ident != IDENTS[term][1 if term == "kitty" else 0]:
+                continue      # the other sessions: kitty 0.25.0, Konsole, forced support on "wezterm"
+            cases.append(dict(base, slots={"a": K, "b": K0 if term != "konsole" else I},
+                              steps=[S] + [d(beside(two, n, 8)) for n in range(3)]
+                              + [d(beside(["pile", [["pack", ["text", "v"]], [["weight", 1], two]]], n, 8)) for n in range(3, 5)] + [E]))
+            cases.append(dict(base, slots={"a": K}, steps=[S] + [
+                d(["pile", [["pack", ["text", f"tick {n}"]], [["weight", 1], one]]]) for n in range(3)] + [E]))
+            # without the alternate buffer, and after clear()
+            cases.append(dict(base, slots={"a": K0}, steps=[{"op": "start", "alt": False}, d(beside(one, 0, 8)), d(beside(one, 1, 8)),
+                                                            {"op": "clear"}, d(beside(one, 2, 8)), d(beside(one, 3, 8)), E]))
     return cases
 
 
@@ -761,7 +833,7 @@ class Encoder:
             steps.append(f"(mk_step {self.act_term(r, i)} {self.obs_term(r)})")
         kon = self.case["term"] == "konsole"
         z0 = self.case.get("z_start") or 1
-        return (f"mk_case {b(kon)} {b(self.case.get('ksup', True))} {b(kon)} 400 {core.z(z0)} "
+        return (f"mk_case {b(kon)} {b(self.case.get('ksup', True))} {b(kon)} 400 {core.z(z0)} {ident_term(self.case)} "
                 + core.coq_list(steps))
 
 
@@ -797,7 +869,8 @@ def describe_how(st):
 
 
 def describe(case, upto=None):
-    s = f"term={case['term']} size={case['size'][0]}x{case['size'][1]}" + ("" if case.get("ksup", True) else " kitty-unsupported")
+    s = (f"term={case['term']} ({describe_ident(case)}) size={case['size'][0]}x{case['size'][1]}"
+         + ("" if case.get("ksup", True) else " kitty-unsupported"))
     if case.get("z_start"):
         s += f" z_start={case['z_start']}"
     s += " widgets{" + ",".join(describe_spec(n, sp) for n, sp in case["slots"].items()) + "} :: "
@@ -838,7 +911,7 @@ def describe(case, upto=None):
 
 
 HEADER = ("From Coq Require Import List ZArith Bool.\nImport ListNotations.\n"
-          "From TI Require Import lib.Term model.Screen model.ScreenSession model.ScreenTie.\nOpen Scope nat_scope.\n")
+          "From TI Require Import lib.Term model.Screen model.ScreenSession model.ScreenBlend model.ScreenTie.\nOpen Scope nat_scope.\n")
 
 
 def evaluate(cases, errors, prefix="c18"):
@@ -1088,7 +1161,8 @@ def shrink(case, verdict, errors, rounds=4, t_end=None):
 
 def run(ctx):
     errors, mismatches, failures, raw_failing = [], [], [], []
-    hist = {"terminal": {}, "start_mode": {"alternate buffer": 0, "inline (alternate_buffer=False)": 0},
+    hist = {"terminal": {}, "terminal_identity": {}, "repaints_of_unchanged_image_views": {"redraws": 0, "image lines re-sent": 0},
+            "start_mode": {"alternate buffer": 0, "inline (alternate_buffer=False)": 0},
             "starts_on_a_terminal_holding_placements": {"alternate buffer": 0, "inline (alternate_buffer=False)": 0},
             "sessions_with_both_modes": 0, "new_screen_objects": 0, "earlier_output_items": {},
             "public_clear_images_calls": {}, "widget_format_specs": {"default": 0, "alignment / alpha only": 0}, "widget_format_spec_fields": {},
@@ -1131,6 +1205,8 @@ def run(ctx):
                              "replay": {"case": c}})
             continue
         hist["terminal"][c["term"]] = hist["terminal"].get(c["term"], 0) + 1
+        idk = " ".join(ident_of(c)) + ("" if c.get("ksup", True) else " (kitty protocol unsupported)")
+        hist["terminal_identity"][idk] = hist["terminal_identity"].get(idk, 0) + 1
         ns = len(c["steps"])
         hist["steps_per_session"][ns // 4 * 4] = hist["steps_per_session"].get(ns // 4 * 4, 0) + 1
         specs = list(c["slots"].values()) + [st["spec"] for st in c["steps"] if st["op"] == "new"]
@@ -1218,6 +1294,11 @@ def run(ctx):
                 if not s["layout"]["composite"]:
                     hist["non_composite_canvases"] += 1
                 cur = {tuple(x) for x in s["cviews"]}
+                if prev_views is not None and prev_views == cur and cur and s["op"] == "draw" and "a=T" in s["out"] \
+                        and "a=d,d=A" not in s["out"] and "a=d,d=Z" not in s["out"]:
+                    hist["repaints_of_unchanged_image_views"]["redraws"] += 1
+                    hist["repaints_of_unchanged_image_views"]["image lines re-sent"] += s["out"].count("a=T")
+                    nontrivial = True
                 if prev_views is not None and prev_views - cur:
                     hist["redraws_with_vanished_views"] += 1
                     nontrivial = True
@@ -1300,7 +1381,7 @@ def run(ctx):
                 "Overlay, ListBox, LineBox, Filler, Padding, BoxAdapter, image widgets in box and flow position, the same "
                 "widget possibly several times) followed by 3-10 operations: a mutation of the layout (overlay moved / "
                 "resized / its top replaced, list box scrolled, item inserted / removed, image swapped), a new layout, redraw "
-                "of the same canvas, the PUBLIC clear_images() (all images or one / two widgets, now=True or queued) followed by a redraw of the unchanged or a changed layout, clear()+redraw, stop [+ more foreign output] [+ new screen object] + start in either mode, a widget replaced by a new one, a widget dropped and "
+                "of the same canvas, the PUBLIC clear_images() (all images or one / two widgets, now=True or queued) followed by a redraw of the unchanged or a changed layout, REPAINTS OF UNCHANGED IMAGE VIEWS (7% of the operations on screens >= 20 columns, and 1-4 corpus sessions per terminal identity: a text pane beside the current layout on the same rows whose every row changes 2-4 times while nothing else does - urwid re-sends the rows, no view vanishes, the screen sends no delete; identities: identified as kitty 0.20.0 / 0.25.0 / 0.25.1 / 0.26.0 / 0.32.2, konsole 22.04.0 / 22.12.3, forced support on unidentified 'wezterm' / 'ghostty' / ''; generated sessions cycle through the identities of their terminal kind), clear()+redraw, stop [+ more foreign output] [+ new screen object] + start in either mode, a widget replaced by a new one, a widget dropped and "
                 "collected, a redraw whose inner draw raises (wrong size / the canvas' content() failing at a row / OSError at one of the "
                 "base class' writes) followed by clear()+redraw.  EVERY VALID WIDGET: 55% of the widgets are constructed with a non-default "
                 "format specifier: horizontal / vertical alignment with padding sizes, alpha (#, #.3, #rrggbb, ##) and for kitty / iterm2 "
@@ -1353,8 +1434,13 @@ def run(ctx):
             "after a redraw that did not reach the terminal, or that urwid short-circuits after a public clear_images() call / an aborted "
             "redraw deleted images of that very canvas object, only 'no placement that the canvas now tracked does not have' is demanded "
             "(the images stay deleted until a new canvas is drawn: urwid does not draw the canvas object it drew last again)",
-            "KittyImage / ITerm2Image support is as the test-suite stubs say (GraphicsImage._supported = True; "
-            "ITerm2Image._TERM set as is_supported() would on konsole / wezterm)",
+            "terminal identity: KittyImage.is_supported() itself identifies the terminal from the stubbed name / version and an OK "
+            "reply to the graphics query (kitty 0.20.0 / 0.25.0 / 0.25.1 / 0.26.0 / 0.32.2, konsole 22.04.0 / 22.12.3); for the "
+            "unidentified terminals ('wezterm', 'ghostty', '') it answers False and KittyImage.forced_support = True is set, the documented "
+            "way; ITerm2Image support is as the test-suite stubs say (_TERM set as is_supported() would on konsole / wezterm)",
+            "(T4) a kitty-protocol terminal ADDS a placement when the same image line is transmitted-and-displayed again at the same cell "
+            "with the same z-index (placements are counted: model/ScreenBlend.v); Konsole replaces an equal placement (the library's own "
+            "statement, _urwid.py:102-104) - there equal placements count once",
             "the theorems are about the code AFTER pending_fixes/C18_non_composite_canvas.diff and "
             "C18_kitty_widget_listed_per_view.diff",
         ],
